@@ -1209,6 +1209,25 @@ func (g *gen) execReturn(x *ssa.Return, st *state) {
 			g.oblige("post", lbl+retSuffix, x.Pos(), g.specBool(e, en.Expr), en.Props)
 		}
 	}
+	if g.con != nil && g.opts.functional && !g.con.flag("trusted") {
+		// "at return: assert expr": like ensures, but stated over the function's locals as they are at the
+		// return (never used at call sites)
+		for _, s := range g.con.Sites {
+			if s.Site != "return" {
+				continue
+			}
+			pe := g.pointEnv(x.Block(), st, func(p *ssa.Phi) string { return g.vals[p] })
+			g.siteInstr = x
+			pe.results, pe.resNames = e.results, e.resNames
+			lbl := s.Label
+			if lbl == "" {
+				lbl = s.Text
+			}
+			cond := g.specBool(pe, s.Expr)
+			g.siteInstr = nil
+			g.oblige("site", "at return/"+lbl+retSuffix, x.Pos(), cond, s.Props)
+		}
+	}
 	if g.opts.errprop && !g.con.flag("noerrprop") {
 		n := sig.Results().Len()
 		if n > 0 && types.TypeString(sig.Results().At(n-1).Type(), nil) == "error" {
